@@ -609,4 +609,12 @@ def rule_sized_exact(ctx):
 
 from .rules_wrappers import rules_for as _rules_for
 _fw_C18 = _rules_for("C18")
-RULES = [rule_wrapper, rule_constants, rule_formula, rule_writer_schema, rule_sized_exact, _fw_C18]
+def rule_framing_decision_premise(ctx):
+    """`length-delimited` / `chunked` of the advertised size is the mode the request analysis installs from the effective
+    headers (R02.7 table, R02.6 effective lookups), shared"""
+    from .rules_c02 import rule_host_and_framing, rule_header_order
+    rule_host_and_framing(ctx)
+    rule_header_order(ctx)
+
+
+RULES = [rule_wrapper, rule_constants, rule_formula, rule_writer_schema, rule_sized_exact, _fw_C18, rule_framing_decision_premise]
